@@ -574,7 +574,8 @@ class Prover:
         if k == "path" and not e[2]:
             for l, loc in enumerate(self.b.locals):
                 if loc.get("name") == e[1] or ("_%d" % l) == e[1]:
-                    return ty_range(ty_str(loc["ty"]))
+                    # (a `&u8` parameter is used through auto-deref: `d >> 4` on `d: &u8`)
+                    return ty_range(ty_str(loc["ty"])) or ty_range(strip_outer_ref(ty_str(loc["ty"])))
             return None
         if k == "cast":
             inner = self.interval(e[1])
